@@ -35,6 +35,8 @@ EXPECTED = [
     'lemma/percent-encoding/byte',
     'lemma/percent-encoding/escaper-and-decoder-found',
     'trashcli.parse_trashinfo.parse_path.parse_path/post/decoder-is-unquote',
+    'list-reader/line-is-date-space-absolute-path',
+    'restore-reader/location-is-volume-joined-with-first-Path',
 ]
 
 HEX = '0123456789ABCDEFabcdef'
@@ -89,7 +91,7 @@ def byte_lemma(b, safe, plus):
     return ('unsat' if r == z3.unsat else 'unknown'), None
 
 
-def build(S, tier, seed):
+def build(S, tier, seed, with_readers=True):
     S.install([trashdirs.VolumeOf(), trashdirs.HomeTrashDirPath(), put.ForFile()],
               loops={trashdirs.VOLUME_OF_LOOP: trashdirs.volume_of_loop_annot(),
                      dates.PARSE_LOOP: dates.parse_loop_annot(),
@@ -113,6 +115,12 @@ def build(S, tier, seed):
     S.verify(dates.ParseDeletionDate())
     roundtrip_vc(S, found)
     S.interp.lib.registry['urllib.parse.quote'].fn = orig_quote
+    if with_readers:
+        # what the commands really read: contents_of -> parse_path -> join
+        from . import readers
+        S.verify(purge.PathOfBackupCopy())
+        readers.list_reader_vc(S)
+        readers.restore_reader_vc(S)
     # the per-byte induction steps, for what the source really uses
     safes = sorted(found['safe'])
     decs = sorted(found['decoders'])
@@ -266,6 +274,15 @@ def name_battery(repo, seed=0, n=40):
             import re
             if not re.match(rb'^DeletionDate=\d{4}-\d\d-\d\dT\d\d:\d\d:\d\d$', lines[2]):
                 problems.append('%r: bad date line %r' % (bs, lines[2]))
+            # the readers must give back the exact name, byte for byte
+            os.remove(p) if os.path.lexists(p) else None
+            rs = sb.run('trash-restore', ['--trash-dir', td, work], stdin='0\n',
+                        cwd=work)
+            if not os.path.lexists(p):
+                problems.append('%r: trash-restore did not recreate the exact '
+                                'name; work dir has %r' % (bs, os.listdir(os.fsencode(work))))
+                continue
+            sb.run('trash-put', ['--trash-dir', td, '--', os.fsdecode(p)], cwd=work)
             lst = sb.run('trash-list', ['--trash-dir', td])
             if os.fsdecode(bs) not in lst['stdout'] and b'\n' not in bs:
                 try:
